@@ -1,3 +1,179 @@
+/-
+C16 — Measurement resampling and source-size filtering conserve what they promise.
+
+* `DiffractionPatterns.interpolate`: statements about `AbtemVerif.Resample` (Model/Resample.lean) whose rescale
+  term and zero-sum guard are the generated `Gen/Resample.lean` (`array / new_sums * old_sums`,
+  `where(new_sums == 0, 1, new_sums)`).
+* `Images.interpolate(method="fft")`: same grid = identity (C14's crop masks on equal sizes + any Fourier pair) and
+  mean preservation (any two Fourier pairs with the DC properties, any crop that keeps the zero frequency).
+* `gaussian_source_size`: any linear map on the scan axes commutes with any masked sum over the detector axes.
+-/
+import AbtemVerif.Model.Resample
+import AbtemVerif.Props.C14
+import AbtemVerif.Lib.DFT
+import Mathlib.Tactic.Ring
+import Mathlib.Tactic.Linarith
+import Mathlib.Tactic.FieldSimp
+
 namespace AbtemVerif.Props.C16
-theorem placeholder : True := trivial
+open AbtemVerif.Resample AbtemVerif.Gen.Resample AbtemVerif.FftGeom AbtemVerif.DFT
+open Finset BigOperators
+
+/-! ### helper lemmas -/
+
+lemma foldl_add_shift (l : List Rat) (a : Rat) : l.foldl (· + ·) a = a + l.foldl (· + ·) 0 := by
+  induction l generalizing a with
+  | nil => simp
+  | cons x xs ih => simp only [List.foldl_cons]; rw [ih (a + x), ih (0 + x)]; ring
+
+lemma sumList_eq_sum (l : List Rat) : sumList l = l.sum := by
+  unfold sumList
+  induction l with
+  | nil => simp
+  | cons x xs ih => simp only [List.foldl_cons, List.sum_cons]; rw [foldl_add_shift, ih]; ring
+
+/-! ### DiffractionPatterns.interpolate -/
+
+/-- **The rescale preserves the total intensity**: whatever the interpolated values `new` are, if they do not sum
+to zero the returned pattern sums to the total `s` of the original pattern. -/
+theorem rescale_preserves_sum (new : List Rat) (s : Rat) (h : sumList new ≠ 0) : sumList (rescale new s) = s := by
+  rw [sumList_eq_sum] at h ⊢
+  unfold rescale rescaleTerm newSumGuard
+  rw [sumList_eq_sum]
+  simp only [h, decide_false, Bool.false_eq_true, if_false]
+  have : (new.map fun a => a / new.sum * s) = new.map fun a => a * ((new.sum)⁻¹ * s) := by
+    apply List.map_congr_left; intro a _; rw [div_eq_mul_inv]; ring
+  rw [this, List.sum_map_mul_right]
+  simp only [List.map_id']
+  field_simp
+
+/-- A pattern without any intensity stays without intensity (no `0/0`): the guard divides by 1. -/
+theorem rescale_zero_pattern (new : List Rat) (s : Rat) (h : ∀ a ∈ new, a = 0) : rescale new s = new := by
+  have hs : sumList new = 0 := by
+    rw [sumList_eq_sum]; exact List.sum_eq_zero h
+  unfold rescale rescaleTerm newSumGuard
+  simp only [hs, decide_true, if_true]
+  conv_rhs => rw [← List.map_id new]
+  apply List.map_congr_left
+  intro a ha
+  rw [h a ha]; simp
+
+/-- The four bilinear weights add up to one, so a locally constant pattern is reproduced … -/
+theorem blend_constant (c uw vw : Rat) : blend c c c c uw vw = c := by
+  unfold blend; ring
+
+/-- … a new pixel that falls exactly on an old one (weights 0) takes that pixel's value … -/
+theorem blend_on_node (a b c d : Rat) : blend a b c d 0 0 = a := by
+  unfold blend; ring
+
+/-- … and for weights in `[0, 1]` the result stays between the smallest and largest neighbour. -/
+theorem blend_between (a b c d uw vw lo hi : Rat) (hu : 0 ≤ uw ∧ uw ≤ 1) (hv : 0 ≤ vw ∧ vw ≤ 1)
+    (ha : lo ≤ a ∧ a ≤ hi) (hb : lo ≤ b ∧ b ≤ hi) (hc : lo ≤ c ∧ c ≤ hi) (hd : lo ≤ d ∧ d ≤ hi) :
+    lo ≤ blend a b c d uw vw ∧ blend a b c d uw vw ≤ hi := by
+  have w1 : 0 ≤ (1 - uw) * (1 - vw) := mul_nonneg (by linarith [hu.2]) (by linarith [hv.2])
+  have w2 : 0 ≤ uw * (1 - vw) := mul_nonneg hu.1 (by linarith [hv.2])
+  have w3 : 0 ≤ (1 - uw) * vw := mul_nonneg (by linarith [hu.2]) hv.1
+  have w4 : 0 ≤ uw * vw := mul_nonneg hu.1 hv.1
+  have e : blend a b c d uw vw = a * ((1 - uw) * (1 - vw)) + b * (uw * (1 - vw)) + c * ((1 - uw) * vw) + d * (uw * vw) := by
+    unfold blend; ring
+  have one : (1 - uw) * (1 - vw) + uw * (1 - vw) + (1 - uw) * vw + uw * vw = 1 := by ring
+  rw [e]
+  constructor
+  · nlinarith [mul_le_mul_of_nonneg_right ha.1 w1, mul_le_mul_of_nonneg_right hb.1 w2,
+      mul_le_mul_of_nonneg_right hc.1 w3, mul_le_mul_of_nonneg_right hd.1 w4]
+  · nlinarith [mul_le_mul_of_nonneg_right ha.2 w1, mul_le_mul_of_nonneg_right hb.2 w2,
+      mul_le_mul_of_nonneg_right hc.2 w3, mul_le_mul_of_nonneg_right hd.2 w4]
+
+/-- `DiffractionPatterns.interpolate` preserves the total of every pattern whose resampled values do not sum to
+zero (`_partial`: the full statement "for every pattern" is false, see the counter-example below). -/
+theorem interpolate_preserves_total_partial (H W : Nat) (sx sy : Rat) (x : List Rat) (H' W' : Nat) (sx' sy' : Rat) (y : List Rat)
+    (hy : interpolate H W sx sy x H' W' sx' sy' = .ok y)
+    (hne : sumList (bilinear H W x ((kgrid H' sx').map (nodeWeight (kgrid H sx))) ((kgrid W' sy').map (nodeWeight (kgrid W sy)))) ≠ 0) :
+    sumList y = sumList x := by
+  unfold interpolate at hy
+  split at hy
+  · cases hy
+  · cases hy
+    exact rescale_preserves_sum _ _ hne
+
+/-- Negation witness (known finding): bilinear *point sampling* onto a coarser grid can miss an isolated bright pixel
+completely; then nothing can be rescaled and the total intensity 1 becomes 0 (NaN before the zero-sum guard). -/
+theorem interpolate_loses_isolated_pixel_counterexample :
+    ¬ ∀ (H W : Nat) (sx sy : Rat) (x : List Rat) (H' W' : Nat) (sx' sy' : Rat) (y : List Rat),
+        interpolate H W sx sy x H' W' sx' sy' = .ok y → sumList y = sumList x := by
+  intro h
+  have h1 := h 4 4 (1/8) (1/8) [0,0,0,0, 0,1,0,0, 0,0,0,0, 0,0,0,0] 2 2 (1/4) (1/4) [0,0,0,0] (by decide +kernel)
+  revert h1
+  decide +kernel
+
+/-! ### gaussian_source_size commutes with integration -/
+
+/-- **Filtering across the scan axes commutes with integrating over the detector axes** — for every linear map `g`
+on scan positions (the Gaussian source-size kernel with wrap-around, or any other), every detector mask / weight `m`
+(annular, polar-bin or any other integration region) and every 4-D data set `A`. -/
+theorem filter_commutes_with_integration {S K R : Type*} [Fintype S] [Fintype K] [CommSemiring R]
+    (g : S → S → R) (m : K → R) (A : S → K → R) :
+    (fun s => ∑ k, m k * (∑ s', g s s' * A s' k)) = (fun s => ∑ s', g s s' * (∑ k, m k * A s' k)) := by
+  funext s
+  simp_rw [Finset.mul_sum]
+  rw [Finset.sum_comm]
+  apply Finset.sum_congr rfl; intro s' _
+  apply Finset.sum_congr rfl; intro k _
+  ring
+
+/-! ### Images.interpolate (Fourier method) -/
+
+lemma bigPos_same (n p : Nat) (hp : p < n) : AbtemVerif.Props.C14.bigPos n n p = p := by
+  unfold AbtemVerif.Props.C14.bigPos; split_ifs <;> omega
+
+/-- On the same grid the Fourier crop copies every coefficient to its own position … -/
+theorem crop1d_same_grid (x : List Int) (hn : 1 ≤ x.length) : crop1d x x.length = .ok x := by
+  rw [AbtemVerif.Props.C14.crop1d_value x x.length hn (le_refl _)]
+  congr 1
+  apply List.ext_getElem
+  · simp
+  · intro i h1 h2
+    have hi : i < x.length := h2
+    simp only [List.getElem_map, List.getElem_range]
+    rw [bigPos_same _ _ hi, List.getD_eq_getElem?_getD, List.getElem?_eq_getElem hi, Option.getD_some]
+
+/-- … so **Fourier interpolation onto the same grid returns the input unchanged**, for every Fourier pair (the
+`values` normalisation factor is `N/N = 1`). -/
+theorem fourier_same_grid_identity {ι : Type*} [Fintype ι] [Nonempty ι] (P : FourierPair ι) (x : ι → ℂ) :
+    (fun j => ((Fintype.card ι : ℂ) / (Fintype.card ι : ℂ)) * P.Finv (P.F x) j) = x := by
+  have hN : (Fintype.card ι : ℂ) ≠ 0 := by
+    have : 0 < Fintype.card ι := Fintype.card_pos
+    exact_mod_cast (ne_of_gt this)
+  funext j
+  rw [P.inv_left, div_self hN, one_mul]
+
+/-- the crop / pad keeps the zero-frequency coefficient at position 0 (C14's pairing) -/
+theorem crop_keeps_dc (N n : Nat) (hn : 1 ≤ n) : AbtemVerif.Props.C14.bigPos N n 0 = 0 := by
+  unfold AbtemVerif.Props.C14.bigPos
+  rw [if_pos (by omega)]
+
+/-- **Fourier interpolation preserves the image mean** (normalisation `values`): for every two Fourier pairs whose
+zero-frequency coefficient is the sum (`F x 0 = Σ x`, `Σ F⁻¹ y = y 0` — the DFT), and every crop / pad that keeps the
+zero-frequency coefficient, the mean of the `N₂/N₁`-scaled result equals the mean of the input. -/
+theorem fourier_interpolate_preserves_mean {ι κ : Type*} [Fintype ι] [Fintype κ] [Nonempty ι] [Nonempty κ]
+    (P : FourierPair ι) (Q : FourierPair κ) (i0 : ι) (k0 : κ)
+    (hdc : ∀ x, P.F x i0 = ∑ j, x j) (hsum : ∀ y, ∑ j, Q.Finv y j = y k0)
+    (crop : (ι → ℂ) → (κ → ℂ)) (hcrop : ∀ y, crop y k0 = y i0) (x : ι → ℂ) :
+    (∑ j, ((Fintype.card κ : ℂ) / (Fintype.card ι : ℂ)) * Q.Finv (crop (P.F x)) j) / (Fintype.card κ : ℂ)
+      = (∑ j, x j) / (Fintype.card ι : ℂ) := by
+  have hN : (Fintype.card ι : ℂ) ≠ 0 := by
+    have : 0 < Fintype.card ι := Fintype.card_pos
+    exact_mod_cast (ne_of_gt this)
+  have hM : (Fintype.card κ : ℂ) ≠ 0 := by
+    have : 0 < Fintype.card κ := Fintype.card_pos
+    exact_mod_cast (ne_of_gt this)
+  rw [← Finset.mul_sum, hsum, hcrop, hdc]
+  field_simp
+
+/-! ### non-vacuity -/
+example : rescale [1, 1, 2] 3 = [3/4, 3/4, 3/2] := by decide +kernel
+example : interpolate 2 2 (1/2) (1/2) [1, 2, 3, 4] 3 3 (1/4) (1/4)
+    = .ok [50/63, 20/21, 20/21, 10/9, 80/63, 80/63, 10/9, 80/63, 80/63] := by decide +kernel
+example : crop1d [3, 1, 4, 1, 5] 5 = .ok [3, 1, 4, 1, 5] := by decide +kernel
+
 end AbtemVerif.Props.C16
